@@ -237,7 +237,12 @@ func (bl *ToBoltListener) VisitTerminal(node antlr.TerminalNode) {
 	case zitiql.ZitiQlLexerDATETIME:
 		bl.appendDateTimeNode(node.GetText())
 	case zitiql.ZitiQlLexerIDENTIFIER:
-		bl.pushStack(&UntypedSymbolNode{symbol: node.GetText()})
+		// an identifier may be written between single quotes ('name'); the quotes are not part of the name
+		symbol := node.GetText()
+		if len(symbol) > 1 && strings.HasPrefix(symbol, "'") && strings.HasSuffix(symbol, "'") {
+			symbol = symbol[1 : len(symbol)-1]
+		}
+		bl.pushStack(&UntypedSymbolNode{symbol: symbol})
 	case zitiql.ZitiQlLexerNULL:
 		bl.pushStack(NullConstNode{})
 	case zitiql.ZitiQlLexerNUMBER:
